@@ -281,6 +281,20 @@ class World:
             dst = ev[4] if len(ev) > 4 else str(ep.addrs[0])
             ep.inbox.append((ev[2], ev[3]))
             self.loop_once(ep, ('udp', dst))
+        elif kind == 'together':    # ('together', ep, [('udp', bytes, src, dst) | ('xfrm', raw) | ('control',), ...]): one pass of
+            #                         the loop in which select() reports all those sockets readable at once
+            ep = self.endpoints[ev[1]]
+            wants = []
+            for item in ev[2]:
+                if item[0] == 'udp':
+                    ep.inbox.append((item[1], item[2], item[3]))
+                    wants.append(('udp', item[3]))
+                elif item[0] == 'xfrm':
+                    ep.kernel_events.append(item[1])
+                    wants.append(('xfrm', None))
+                else:
+                    wants.append(('control', None))
+            self.loop_once(ep, wants)
         elif kind == 'kevent':      # ('kevent', ep, raw netlink bytes)
             ep = self.endpoints[ev[1]]
             ep.kernel_events.append(ev[2])
